@@ -19,7 +19,7 @@ import cmath
 import math
 import re
 
-from ppsa.astutil import norm, dotted, fold, NOFOLD
+from ppsa.astutil import norm, dotted, fold, NOFOLD, inline_locals, names_in
 from ppsa.selftest import Variant, replace_once, in_function
 
 R3 = "pandapower.pf.runpp_3ph"
@@ -339,7 +339,45 @@ def rule_grouping(ctx):
            "buses", fe.loc())
 
 
+def rule_line_base(ctx):
+    R = "3PH-BASE"
+    ctx.rule(R, "in the positive- and zero-sequence line models every per-unit parameter (BR_R, BR_X, BR_B, BR_G) is formed with the "
+                "local `baseR`, which carries the factor 3 of the pf_3ph mode: an impedance base written out by hand is the "
+                "single-phase-equivalent one and scales that parameter by 3 in runpp_3ph only; the zero-sequence BR_STATUS of a line "
+                "is written in every mode (an out-of-service line must not conduct in the zero-sequence network of runpp_3ph)")
+    n = 0
+    for fq in ("pandapower.build_branch:_calc_line_parameter", "pandapower.pd2ppc_zero:_add_line_sc_impedance_zero"):
+        fi = ctx.repo.func(fq)
+        has_mode_base = any(isinstance(st, (ast.Assign, ast.If)) and "baseR" in ast.unparse(st) and "pf_3ph" in ast.unparse(st) for st in ast.walk(fi.node))
+        if not has_mode_base:
+            ctx.fail(f"{fq}: mode dependent baseR not found")
+        for st in ast.walk(fi.node):
+            if not (isinstance(st, ast.Assign) and isinstance(st.targets[0], ast.Subscript)):
+                continue
+            col = ast.unparse(st.targets[0].slice).split(",")[-1].strip(" ()")
+            if col not in ("BR_R", "BR_X", "BR_B", "BR_G"):
+                continue
+            v = inline_locals(fi.node, st.value, keep=("baseR", "base_kv", "length_km", "length", "parallel", "line"))
+            if "per_km" not in ast.unparse(v):
+                continue
+            n += 1
+            ok = "baseR" in names_in(v) and "sn_mva" not in ast.unparse(v)
+            ctx.ob(R, f"{fi.module.name}::{fi.qualname}::{col}", ok, f"{col} is normalised with baseR" if ok else
+                   f"`{_n(st, 60)}` = `{_n(v, 100)}` does not use the mode dependent baseR: in pf_3ph mode the parameter is three times too "
+                   "large (or small), a balanced runpp_3ph no longer reproduces runpp", fi.loc(st))
+    if n < 7:
+        ctx.fail(f"3PH-BASE: only {n} per-unit line parameters found (confirmed: 4 + 3)")
+    fz = ctx.repo.func("pandapower.pd2ppc_zero:_add_line_sc_impedance_zero")
+    status = [st for st in ast.walk(fz.node) if isinstance(st, ast.Assign) and "BR_STATUS" in ast.unparse(st.targets[0])]
+    top = [st for st in fz.node.body if st in status]
+    ctx.ob(R, "pandapower.pd2ppc_zero::_add_line_sc_impedance_zero::BR_STATUS", bool(top),
+           "the in_service flag is written unconditionally" if top else
+           ("the BR_STATUS store sits inside a conditional block" if status else "no BR_STATUS store") +
+           ": in the modes that skip it an out-of-service line keeps the default status 1 in the zero-sequence network", fz.loc(status[0]) if status else fz.loc())
+
+
 def run(ctx):
+    rule_line_base(ctx)
     ctx.assume("decides the bookkeeping of the three-phase power flow (element tables, per-phase shares, phase letters / positions, the "
                "constant transformation matrices); the numerical agreement with the symmetric power flow is not decided")
     rule_tables(ctx)
@@ -347,6 +385,15 @@ def run(ctx):
     rule_phase(ctx)
     rule_matrix(ctx)
     rule_grouping(ctx)
+
+
+def variants_r5(V):
+    bb = "pandapower/build_branch.py"
+    pz = "pandapower/pd2ppc_zero.py"
+    return [
+        V("line conductance with a hand-written base", bb, in_function("_calc_line_parameter", replace_once('g = line["g_us_per_km"].values * 1e-6 * baseR * length_km * parallel', 'g = line["g_us_per_km"].values * 1e-6 * np.square(base_kv) / net.sn_mva * length_km * parallel')), "_calc_line_parameter::BR_G"),
+        V("zero-sequence line status only in sc mode", pz, in_function("_add_line_sc_impedance_zero", lambda s: s.replace('    ppc["branch"][f:t, BR_STATUS] = line["in_service"].astype(np.int64)\n', '', 1).replace('    ppc["branch"][f:t, BR_X] = line["x0_ohm_per_km"]', '        ppc["branch"][f:t, BR_STATUS] = line["in_service"].astype(np.int64)\n    ppc["branch"][f:t, BR_X] = line["x0_ohm_per_km"]', 1)), "BR_STATUS"),
+    ]
 
 
 def variants(repo):
@@ -374,4 +421,4 @@ def variants(repo):
         V("a and a^2 swapped in both matrices", aux, replace_once("a = phase_shift_unit_operator(120)\nasq = phase_shift_unit_operator(-120)", "a = phase_shift_unit_operator(-120)\nasq = phase_shift_unit_operator(120)"), "<module>::Tabc"),
         V("phase_to_sequence with Tabc", aux, replace_once("return np.asarray(np.matmul(T012, Xabc))", "return np.asarray(np.matmul(Tabc, Xabc))"), "phase_to_sequence"),
         V("twin: sign via membership", rb, in_function("_get_p_q_results_3ph", lambda s: s.replace("sign = -1 if element in ['sgen', 'asymmetric_sgen'] else 1", 'sign = -1 if element.endswith("sgen") else 1')), None),
-    ]
+    ] + variants_r5(Variant)
